@@ -89,8 +89,24 @@ class Impl:
         return out
 
 
+def gen_coupled(rng, isa, maxlen):
+    """Coupled recurrences: three-operand arithmetic over a pool of two or three registers, so that an instruction lies on
+    several overlapping dependency cycles and cycles exist without a self-dependent member."""
+    pool = rng.sample(range(0, 12), rng.choice([2, 3, 3]))
+    lines = []
+    for _ in range(rng.randint(3, max(3, min(maxlen, 7)))):
+        a, b, c = rng.choice(pool), rng.choice(pool), rng.choice(pool)
+        if isa == "x86":
+            lines.append("%s %%xmm%d, %%xmm%d, %%xmm%d" % (rng.choice(["vaddpd", "vmulpd", "vsubpd"]), a, b, c))
+        else:
+            lines.append("%s d%d, d%d, d%d" % (rng.choice(["fadd", "fmul", "fsub"]), c, a, b))
+    return lines
+
+
 def gen_kernel(rng, isa, maxlen, kind=None):
-    kind = kind or rng.choice(["plain", "plain", "mem", "memdep"])
+    kind = kind or rng.choice(["plain", "plain", "mem", "memdep", "coupled"])
+    if kind == "coupled":
+        return gen_coupled(rng, isa, maxlen), None
     if kind == "memdep":
         lines, meta = (dgenc.gen_memdep_x86 if isa == "x86" else dgenc.gen_memdep_a64)(rng)
         return lines, meta
